@@ -932,6 +932,17 @@ type WithNamedPQ struct {
 	In namedPQ
 }
 
+// EmbOtherRec and EmbOtherPair embed, by value, structs of package other whose short names collide with
+// c16.Rec and c16.Pair: the promoted fields must not depend on which "Rec" or "Pair" was seen first.
+type EmbOtherRec struct {
+	other.Rec
+	Z int
+}
+type EmbOtherPair struct {
+	W string
+	other.Pair
+}
+
 type collisionCase struct {
 	name string
 	val  any // pointer to a populated value
@@ -974,6 +985,8 @@ func collisionPool() []collisionCase {
 		{"anonB", &anonB{R: "br", S: []int{3}, T: 1.5}},
 		{"Mid", &Mid{Base: Base{BaseID: 1, BaseName: "b", BasePtr: &f}, MidFlag: true}},
 		{"Base", &Base{BaseID: 2}},
+		{"EmbOtherRec", &EmbOtherRec{Rec: other.Rec{Name: "emb", Count: 4, Extra: []string{"e"}}, Z: 6}},
+		{"EmbOtherPair", &EmbOtherPair{W: "w", Pair: other.Pair{Left: "el", Right: 2.5}}},
 	}
 }
 
